@@ -752,17 +752,116 @@ def run(ctx):
         ctx.obligation(name, "correspondence", True, "%d cases compared" % ctx.traces)
 
 
+def dec_val(j):
+    if j is None or isinstance(j, bool):
+        return j
+    if "i" in j:
+        return int(j["i"])
+    if "f" in j:
+        return j["f"][0] / float(2 ** j["f"][1])
+    if "s" in j:
+        return j["s"]
+    if "bytes" in j:
+        return b"x"
+    if "cls" in j:
+        return ValueError
+    if "list" in j:
+        return [1, 2] if j["list"][1] else [Opaque()]
+    if "dict" in j:
+        return {"a": 1} if j["dict"][1] else {"a": Opaque()}
+    return {1, 2} if j["obj"][1] else Opaque()
+
+
+def dec_key(j):
+    if isinstance(j, str):
+        return j
+    if "b" in j:
+        return b"k" if j["b"][1] else b"\xff"
+    return 5
+
+
+def rebuild(c, reg):
+    """real objects for a recorded validate / logger case (identities are fresh, everything else is as recorded)"""
+    from eliot import MessageType, ActionType
+    from eliot._traceback import TRACEBACK_MESSAGE
+
+    cbs = Callbacks(reg)
+    for i, rules in c["env"]["sers"]:
+        rs = []
+        for r in rules:
+            r = dict(r)
+            if "ret" in r:
+                r["_ret_obj"] = dec_val(r["ret"])
+            if "eq" in r:
+                r["eq"] = dec_val(r["eq"])
+            rs.append(r)
+        cbs.sers[i] = rs
+        cbs.fn[("s", i)] = make_callback(rs, True)
+    for i, rules in c["env"]["extras"]:
+        rs = [dict(r, eq=dec_val(r["eq"])) if "eq" in r else dict(r) for r in rules]
+        cbs.extras[i] = rs
+        cbs.fn[("e", i)] = make_callback(rs, False)
+
+    def fld(f):
+        f = dict(f)
+        if f["t"] == "value":
+            f["value"] = dec_val(f["value"])
+        return f
+
+    def ser_of(sj):
+        if sj is None:
+            return None, None
+        if sj == "traceback":
+            return "traceback", TRACEBACK_MESSAGE._serializer
+        if "message_type" in sj:
+            spec = {"message_type": sj["message_type"], "fields": [fld(f) for f in sj["fields"]]}
+            return spec, MessageType(spec["message_type"], [real_field(f, cbs) for f in spec["fields"]], "")._serializer
+        spec = {"action_type": sj["action_type"], "start": [fld(f) for f in sj["start"]], "success": [fld(f) for f in sj["success"]],
+                "which": sj["which"]}
+        at = ActionType(spec["action_type"], [real_field(f, cbs) for f in spec["start"]], [real_field(f, cbs) for f in spec["success"]], "")
+        return spec, getattr(at._serializers, spec["which"])
+
+    return cbs, ser_of
+
+
 def replay(ctx, obj):
     c = obj.get("case") or {}
     if "case" in c and "real" in c:
         c = c["case"]
+    reg = Registry()
     if c.get("kind") == "test":
         real = run_tree(c["test"], False)
         real2 = run_tree(c["test"], True)
         print(real, real2)
         if not (real["restored"] and real2["restored"]):
             ctx.violation("the default logger after a capture_logging test is not the one before it", c, key=None)
-        return
-    # validation cases hold live callbacks and objects: re-run the generator with the recorded seed instead
-    print("validation cases are regenerated from the seed (they contain live Python objects): re-running the check body")
-    run(ctx)
+    elif c.get("kind") == "validate":
+        cbs, ser_of = rebuild(c, reg)
+        spec, serobj = ser_of(c["ser"])
+        m = {dec_key(k): dec_val(v) for k, v in c["msg"]}
+        real = real_validate(serobj, m)
+        exp_v, exp_m = rule_accepts(spec, m, cbs, "validate"), rule_accepts(spec, m, cbs, "mem")
+        print("message", m, "->", real, "rule:", exp_v, exp_m)
+        if serobj is not None and (real["validate"] == "ok") != exp_v:
+            ctx.violation("_MessageSerializer.validate disagrees with the rule on the recorded message", c, key=None)
+        if (real["mem"] == "ok") != exp_m:
+            ctx.violation("MemoryLogger validation disagrees with the rule on the recorded message", c, key=None)
+    elif c.get("kind") == "logger":
+        cbs, ser_of = rebuild(c, reg)
+        ws = []
+        for w in c["writes"]:
+            spec, serobj = ser_of(w["ser"])
+            ws.append((spec, serobj, {dec_key(k): dec_val(v) for k, v in w["msg"]}))
+        real = real_logger([(m, so) for _, so, m in ws])
+        invalid = [not rule_accepts(sp, m, cbs, "mem") for sp, _, m in ws]
+        ntb = sum(1 for sp, _, _ in ws if sp == "traceback")
+        print(real, "invalid:", invalid, "tracebacks:", ntb)
+        if ntb and real["check"] != "UnflushedTracebacks":
+            ctx.violation("unflushed tracebacks did not make check_for_errors raise UnflushedTracebacks (%s)" % real["check"], c, key=None)
+        if not ntb and (real["check"] == "ok") != (not any(invalid)):
+            ctx.violation("check_for_errors disagrees with the rule on the recorded writes", c, key=None)
+        if real["failed"] != sum(invalid):
+            ctx.violation("recorded validation failures differ from the number of messages breaking their rule", c, key=None)
+    elif c.get("kind") == "types":
+        print("type-level case: re-running the check body")
+        run(ctx)
